@@ -55,7 +55,9 @@ MODEL_SCOPE = ('modelled: Node/Link/Eqpt/Roadm row construction with their defau
                'xls_to_json_data (uids, key order, midpoint, round(length, 3), pmd conversion), Request / Request_element '
                '(unit conversions, mode/transceiver checks, route and disjointness lists), pathrequest / pathsync, the part '
                'of correct_xls_route_list that does not need the designed network. not modelled: header search and cell '
-               'reading (glue, exercised by the correspondence), region filter, choice of the ILA direction from the '
+               'reading (glue, exercised by the correspondence; generated workbooks are written as .xlsx with openpyxl – no .xls writer '
+               'is available offline – and the .xls reader is exercised by the shipped .xls fixtures, see the fixture_xls / '
+               'fixture_xlsx / workbook_written_xlsx counters), region filter, choice of the ILA direction from the '
                'designed network (monitor only), corresp_next_node')
 
 EQPT = 'eqpt_config.json'
@@ -788,16 +790,25 @@ def run_workbook(case, drv):
             return res
         monitor_network(res, tab, impl)
         net = None
+        from gnpy.tools.json_io import network_from_json
+        from gnpy.tools.worker_utils import designed_network
+        eq = nets.eqpt(EQPT)
+        res.stats['workbook_written_xlsx'] += 1
         try:
-            from gnpy.tools.json_io import network_from_json
-            from gnpy.tools.worker_utils import designed_network
-            eq = nets.eqpt(EQPT)
             net = network_from_json(copy.deepcopy(impl), eq)
-            net, _, _ = designed_network(eq, net)
-            res.stats['designed_ok'] += 1
         except Exception as e:  # noqa: BLE001
-            res.fail(f'loadable: network_from_json + designed_network fail on the converted workbook: {err_kind(e)}: {str(e)[:200]}')
+            # the converted document describes a network: it must load (end points exist, names unique, known element kinds)
+            res.fail(f'loadable: network_from_json fails on the converted workbook: {err_kind(e)}: {str(e)[:200]}')
             net = None
+        if net is not None:
+            try:
+                net, _, _ = designed_network(eq, net)
+                res.stats['designed_ok'] += 1
+            except Exception as e:  # noqa: BLE001
+                # auto-design with the stock library is not part of the statement: only a precondition of the service-route
+                # checks (the route correction needs the designed network)
+                res.stats[f'design_failed_{err_kind(e)}'] += 1
+                net = None
         if tab.get('services') is not None and net is not None:
             run_services(res, case, drv, path, net)
         res.nontrivial = res.nontrivial or bool(tab.get('eqpts') or tab.get('roadms') or tab.get('services')) or \
@@ -1079,12 +1090,12 @@ def monitor_routes(res, tab, path, net, eq, bidir, data):
             with contextlib.redirect_stdout(io.StringIO()):
                 alone = correct_xls_route_list(Path(path), net, [Request_element(Request(**kw), eq, bidir)])[0].nodes_list
         except Exception as e:  # noqa: BLE001
-            res.fail(f'route: row {kw["request_id"]} converts in the sheet but is refused when it is alone ({err_kind(e)})')
+            res.mismatch('correct_xls_route_list(row alone) vs (row within its sheet)', err_kind(e), got, row=str(kw['request_id']))
             continue
         res.stats['rows_compared_with_alone_conversion'] += 1
-        if alone != got:
-            res.fail(f'route: row {kw["request_id"]} ({kw["nodes_list"]!r}) gives the route {got} in this sheet but {alone} when it '
-                     'is the only row')
+        # "a row converts as when it is alone" is not in the property text: a correspondence fact (the conversion of a row is
+        # a function of the row and the network only), not a monitor failure
+        res.cmp_exact('correct_xls_route_list(row alone) vs (row within its sheet)', alone, got, row=str(kw['request_id']))
         pth = s_row.get('_path')
         if not pth:
             continue
